@@ -58,6 +58,29 @@ func (s *verifEngC) recordCheckpoints() {
 // back to what had happened by then, plus extraOps operations that happened
 // after the state was written but before the stop). It lets the change
 // finish and returns the state.
+// undoRecorded reports whether the state in cp already records that the
+// change is failing (a task in Error, or the abort's marks): before that a
+// restart simply runs the interrupted task again, which may well succeed.
+func verifUndoRecorded(cp *verifCheckpoint, chgID string) bool {
+	st2, err := state.ReadState(verifNullBackend{}, bytes.NewReader(cp.data))
+	if err != nil {
+		return true
+	}
+	st2.Lock()
+	defer st2.Unlock()
+	chg := st2.Change(chgID)
+	if chg == nil {
+		return false
+	}
+	for _, t := range chg.Tasks() {
+		switch t.Status() {
+		case state.ErrorStatus, state.UndoStatus, state.UndoingStatus, state.UndoneStatus, state.HoldStatus, state.AbortStatus:
+			return true
+		}
+	}
+	return false
+}
+
 func (s *verifEngC) resumeFrom(cp *verifCheckpoint, extraOps int) (*state.State, fakeOps, bool) {
 	c := s.ctx
 	s.fakeBackend.mu.Lock()
@@ -133,11 +156,11 @@ func (s *verifEngC) resumeFrom(cp *verifCheckpoint, extraOps int) (*state.State,
 
 // crashSweepAfterFailedOp: snapd restarted from states written while the
 // failed operation was being undone.
-func (s *verifEngC) crashSweepAfterFailedOp(desc, snapName string, initial *verifWorld, beforeProj map[string]interface{}, cps []*verifCheckpoint) {
+func (s *verifEngC) crashSweepAfterFailedOp(desc, snapName, chgID string, initial *verifWorld, beforeProj map[string]interface{}, cps []*verifCheckpoint) {
 	c := s.ctx
 	var undo []int
 	for i, cp := range cps {
-		if cp.inUndo {
+		if cp.inUndo && verifUndoRecorded(cp, chgID) {
 			undo = append(undo, i)
 		}
 	}
